@@ -25,6 +25,9 @@ var answerClasses = []string{"", "", "", "transport", "reject-fee", "reject-gene
 func genC20(r *core.Rand, p *core.Plan) {
 	p.Sched = []string{"rtb0", "rtb0", "rtb1", "random"}[r.Intn(4)]
 	p.Cfg["maturity"] = []int64{1, 1, 2, 3}[r.Intn(4)]
+	// how the backend words its refusals, and which of the repository's
+	// mappings turns the wording into an answer class
+	p.Cfg["dialect"] = int64(r.Intn(5))
 	if r.Chance(1, 5) {
 		// An unconfirmed child that spends TWO outputs of the same unconfirmed
 		// parent (a payment to an own address plus its change), then a restart:
